@@ -4,26 +4,6 @@ use d_engine_core::*;
 use tokio::sync::mpsc::UnboundedSender;
 use tokio::sync::mpsc::error::SendError;
 
-pub static mut EVS: [Option<InternalEvent>; 4] = [None, None, None, None];
-pub static mut NEVS: usize = 0;
-
-pub fn stub_send<T>(_s: &UnboundedSender<T>, message: T) -> std::result::Result<(), SendError<T>> {
-    if std::mem::size_of::<T>() == std::mem::size_of::<InternalEvent>()
-        && std::mem::align_of::<T>() == std::mem::align_of::<InternalEvent>()
-    {
-        unsafe {
-            let ev: InternalEvent = std::ptr::read(&message as *const T as *const InternalEvent);
-            std::mem::forget(message);
-            assert!(NEVS < 4);
-            EVS[NEVS] = Some(ev);
-            NEVS += 1;
-        }
-    } else {
-        std::mem::forget(message);
-    }
-    Ok(())
-}
-
 #[kani::proof]
 #[kani::stub(std_catch_unwind, cu)]
 #[kani::stub(tokio::sync::mpsc::UnboundedSender::send, stub_send)]
@@ -82,6 +62,7 @@ fn probe_default_cfg() {
 #[kani::proof]
 #[kani::stub(std_catch_unwind, cu)]
 #[kani::stub(tracing::level_filters::LevelFilter::current, stub_level_off)]
+#[kani::stub(tracing::callsite::DefaultCallsite::register, stub_callsite_register)]
 #[kani::stub(std::hash::RandomState::new, stub_random_state_new)]
 #[kani::stub(std::fmt::format, stub_format)]
 #[kani::unwind(2)]
@@ -92,6 +73,7 @@ fn probe_bcast_silent() {
 #[kani::proof]
 #[kani::stub(std_catch_unwind, cu)]
 #[kani::stub(tracing::level_filters::LevelFilter::current, stub_level_off)]
+#[kani::stub(tracing::callsite::DefaultCallsite::register, stub_callsite_register)]
 #[kani::stub(std::hash::RandomState::new, stub_random_state_new)]
 #[kani::stub(std::fmt::format, stub_format)]
 #[kani::unwind(2)]
@@ -103,6 +85,7 @@ fn probe_bcast_none() {
 #[kani::proof]
 #[kani::stub(std_catch_unwind, cu)]
 #[kani::stub(tracing::level_filters::LevelFilter::current, stub_level_off)]
+#[kani::stub(tracing::callsite::DefaultCallsite::register, stub_callsite_register)]
 #[kani::stub(std::hash::RandomState::new, stub_random_state_new)]
 #[kani::stub(std::fmt::format, stub_format)]
 #[kani::unwind(7)]
@@ -116,6 +99,7 @@ fn probe_b1() {
 #[kani::proof]
 #[kani::stub(std_catch_unwind, cu)]
 #[kani::stub(tracing::level_filters::LevelFilter::current, stub_level_off)]
+#[kani::stub(tracing::callsite::DefaultCallsite::register, stub_callsite_register)]
 #[kani::stub(std::hash::RandomState::new, stub_random_state_new)]
 #[kani::stub(std::fmt::format, stub_format)]
 #[kani::unwind(7)]
@@ -137,6 +121,7 @@ fn probe_b2() {
 #[kani::proof]
 #[kani::stub(std_catch_unwind, cu)]
 #[kani::stub(tracing::level_filters::LevelFilter::current, stub_level_off)]
+#[kani::stub(tracing::callsite::DefaultCallsite::register, stub_callsite_register)]
 #[kani::stub(std::hash::RandomState::new, stub_random_state_new)]
 #[kani::stub(std::fmt::format, stub_format)]
 #[kani::unwind(7)]
@@ -158,9 +143,9 @@ fn probe_b3() {
 
 // b4: same as b2 but a panic marker right after the call; + transport stub that must not be reached
 #[kani::proof]
-#[kani::stub(tracing::callsite::DefaultCallsite::register, stub_callsite_register)]
 #[kani::stub(std_catch_unwind, cu)]
 #[kani::stub(tracing::level_filters::LevelFilter::current, stub_level_off)]
+#[kani::stub(tracing::callsite::DefaultCallsite::register, stub_callsite_register)]
 #[kani::stub(std::hash::RandomState::new, stub_random_state_new)]
 #[kani::stub(std::fmt::format, stub_format)]
 #[kani::unwind(3)]
@@ -178,4 +163,183 @@ fn probe_b4() {
     std::mem::forget(tr);
     std::mem::forget(log);
     std::mem::forget(settings);
+}
+
+// ---------------- cost bisection probes (role level) ----------------
+use d_engine_core::verif_hooks as vh;
+use d_engine_core::role_state::RaftRoleState;
+use d_engine_core::follower_state::FollowerState;
+use d_engine_proto::server::election::*;
+fn mk_raft_p(term: u64, vf: Option<VotedFor>, log: VLog) -> Raft<VT> {
+    let cfg = std::sync::Arc::new(RaftNodeConfig::default());
+    let role = RaftRole::Follower(Box::new(FollowerState::<VT>::new(1, cfg.clone(), Some(HardState { current_term: term, voted_for: vf }), None)));
+    let (itx, irx) = tokio::sync::mpsc::unbounded_channel();
+    let (etx, erx) = tokio::sync::mpsc::channel(8);
+    let (ctx_, crx) = tokio::sync::mpsc::channel(8);
+    let (_stx, srx) = tokio::sync::watch::channel(());
+    let sp = SignalParams::new(itx, irx, etx, erx, ctx_, crx, srx);
+    let storage = RaftStorageHandles::<VT> { raft_log: std::sync::Arc::new(log), state_machine: std::sync::Arc::new(VSm::new(0)) };
+    let handlers = RaftCoreHandlers::<VT> { election_handler: ElectionHandler::new(1), replication_handler: ReplicationHandler::new(1), state_machine_handler: std::sync::Arc::new(VSmh::new()), purge_executor: std::sync::Arc::new(VPurge) };
+    Raft::new(1, role, storage, VTr::new(), handlers, std::sync::Arc::new(VMem::new(3, 2, 0)), sp, cfg)
+}
+fn p9_body(log: VLog) {
+    let term: u64 = kani::any();
+    kani::assume(term < u64::MAX - 2);
+    let mut raft = mk_raft_p(term, None, log);
+    let req = VoteRequest { term: kani::any(), candidate_id: kani::any(), last_log_index: kani::any(), last_log_term: kani::any() };
+    let (tx, rx) = MaybeCloneOneshot::new();
+    let itx = raft.internal_event_sender();
+    let _ = run_ready(vh::role_state_mut(&mut raft.role).handle_inbound_event(InboundEvent::ReceiveVoteRequest(req, tx), &raft.ctx, itx));
+    let resp = run_ready(rx).unwrap().unwrap();
+    let hs = vh::role_state(&raft.role).shared_state().hard_state;
+    assert!(hs.current_term >= term);
+    if resp.vote_granted {
+        assert!(hs.current_term == req.term);
+        assert!(hs.voted_for.map(|v| v.voted_for_id) == Some(req.candidate_id));
+    }
+    kani::cover!(resp.vote_granted);
+    std::mem::forget(raft);
+}
+// V1: the design-stage probe shape (empty log, original stubs, unwind 6)
+#[kani::proof]
+#[kani::stub(std_catch_unwind, cu)]
+#[kani::stub(tokio::time::Instant::now, fixed_tokio_now)]
+#[kani::stub(std::time::Instant::now, fixed_std_now)]
+#[kani::stub(vh::ElectionTimer::random_duration, fixed_random_duration)]
+#[kani::unwind(6)]
+fn probe_v1() {
+    p9_body(VLog::empty());
+}
+// V2: V1 + tracing off
+#[kani::proof]
+#[kani::stub(std_catch_unwind, cu)]
+#[kani::stub(tokio::time::Instant::now, fixed_tokio_now)]
+#[kani::stub(std::time::Instant::now, fixed_std_now)]
+#[kani::stub(vh::ElectionTimer::random_duration, fixed_random_duration)]
+#[kani::stub(tracing::level_filters::LevelFilter::current, stub_level_off)]
+#[kani::stub(tracing::callsite::DefaultCallsite::register, stub_callsite_register)]
+#[kani::unwind(6)]
+fn probe_v2() {
+    p9_body(VLog::empty());
+}
+// V3: V1 with symbolic short log
+#[kani::proof]
+#[kani::stub(std_catch_unwind, cu)]
+#[kani::stub(tokio::time::Instant::now, fixed_tokio_now)]
+#[kani::stub(std::time::Instant::now, fixed_std_now)]
+#[kani::stub(vh::ElectionTimer::random_duration, fixed_random_duration)]
+#[kani::unwind(6)]
+fn probe_v3() {
+    p9_body(crate::h_election::any_short_log());
+}
+// V4: V1 + stub_send + poll_proceed + format
+#[kani::proof]
+#[kani::stub(std_catch_unwind, cu)]
+#[kani::stub(tokio::time::Instant::now, fixed_tokio_now)]
+#[kani::stub(std::time::Instant::now, fixed_std_now)]
+#[kani::stub(vh::ElectionTimer::random_duration, fixed_random_duration)]
+#[kani::stub(tokio::task::coop::poll_proceed, stub_poll_proceed)]
+#[kani::stub(std::fmt::format, stub_format)]
+#[kani::stub(tokio::sync::mpsc::UnboundedSender::send, stub_send)]
+#[kani::unwind(6)]
+fn probe_v4() {
+    p9_body(VLog::empty());
+}
+
+#[kani::proof]
+#[kani::stub(std_catch_unwind, cu)]
+#[kani::stub(tracing::level_filters::LevelFilter::current, stub_level_off)]
+#[kani::stub(tracing::callsite::DefaultCallsite::register, stub_callsite_register)]
+#[kani::unwind(6)]
+fn probe_c03_u6() {
+    let initial: usize = kani::any();
+    kani::assume(initial >= 1 && initial <= 5);
+    let mem = std::sync::Arc::new(VMem::new(initial, 0, 0));
+    let single = run_ready(mem.is_single_node_cluster());
+    kani::cover!(single, "single");
+    if single { assert!(initial == 1); }
+    std::mem::forget(mem);
+}
+
+#[kani::proof]
+#[kani::unwind(6)]
+fn probe_nm_vec() {
+    use d_engine_proto::server::cluster::NodeMeta;
+    let mut v: Vec<NodeMeta> = Vec::with_capacity(4);
+    let n: usize = kani::any();
+    kani::assume(n <= 1);
+    if n == 1 {
+        v.push(NodeMeta { id: 2, address: String::new(), role: 1, status: 2 });
+    }
+    assert!(v.len() == n);
+    kani::cover!(v.is_empty(), "empty");
+}
+#[kani::proof]
+#[kani::unwind(6)]
+fn probe_nm_vec0() {
+    use d_engine_proto::server::cluster::NodeMeta;
+    let v: Vec<NodeMeta> = Vec::with_capacity(4);
+    assert!(v.is_empty());
+    kani::cover!(v.is_empty(), "empty");
+}
+
+#[kani::proof]
+#[kani::stub(std_catch_unwind, cu)]
+#[kani::unwind(6)]
+fn probe_voters_direct() {
+    let mem = std::sync::Arc::new(VMem::new(1, 0, 0));
+    let v = run_ready(mem.voters());
+    assert!(v.is_empty());
+    kani::cover!(v.is_empty(), "empty");
+    std::mem::forget(mem);
+}
+#[kani::proof]
+#[kani::stub(std_catch_unwind, cu)]
+#[kani::unwind(6)]
+fn probe_voters_direct_forget() {
+    let mem = std::sync::Arc::new(VMem::new(1, 0, 0));
+    let v = run_ready(mem.voters());
+    assert!(v.is_empty());
+    kani::cover!(v.is_empty(), "empty");
+    std::mem::forget(v);
+    std::mem::forget(mem);
+}
+
+#[kani::proof]
+#[kani::unwind(6)]
+fn probe_voters_nostub() {
+    let mem = std::sync::Arc::new(VMem::new(1, 0, 0));
+    let v = run_ready(mem.voters());
+    assert!(v.is_empty());
+    kani::cover!(v.is_empty(), "empty");
+    std::mem::forget(mem);
+}
+
+struct PM;
+#[async_trait::async_trait]
+trait PT: Send + Sync { async fn vs(&self) -> Vec<d_engine_proto::server::cluster::NodeMeta>; }
+#[async_trait::async_trait]
+impl PT for PM {
+    async fn vs(&self) -> Vec<d_engine_proto::server::cluster::NodeMeta> { Vec::with_capacity(4) }
+}
+#[kani::proof]
+#[kani::unwind(6)]
+fn probe_local_trait_vec() {
+    let v = run_ready(PM.vs());
+    assert!(v.is_empty());
+    kani::cover!(v.is_empty(), "empty");
+}
+struct PM2;
+#[async_trait::async_trait]
+trait PT2: Send + Sync { async fn vs(&self) -> Vec<u64>; }
+#[async_trait::async_trait]
+impl PT2 for PM2 {
+    async fn vs(&self) -> Vec<u64> { Vec::with_capacity(4) }
+}
+#[kani::proof]
+#[kani::unwind(6)]
+fn probe_local_trait_vec_u64() {
+    let v = run_ready(PM2.vs());
+    assert!(v.is_empty());
+    kani::cover!(v.is_empty(), "empty");
 }
